@@ -1,4 +1,5 @@
 pub mod c01_04;
+pub mod c07_12_13;
 
 use crate::alpha::*;
 use crate::report::*;
@@ -28,6 +29,19 @@ pub fn run(prop: &str, tier: &str) -> i32 {
             run.rule = format!("{}; x all 2^n masks (n <= 3)", E1_RULE);
             run_e1(&mut run, &[1, 2, 3], &[false, true], 99, c01_04::eval_c04);
         }
+        "C07" => {
+            run.rule = format!("{}; x all 2^n masks (n <= 4 quick / 5 thorough): each node compared bitwise with the full build, so every mask-flip edge is covered by transitivity", E1_RULE);
+            let mx = if run.thorough() { 5 } else { 4 };
+            run_e1(&mut run, &[1, 2, 3], &[false, true], 99, move |s| c07_12_13::eval_c07_with(s, mx));
+        }
+        "C12" => {
+            run.rule = format!("{}; x all 2^n masks (n <= 4) x routes (direct, From<&VoronoiIntegrator>, with faces)", E1_RULE);
+            run_e1(&mut run, &[1, 2, 3], &[false, true], 99, c07_12_13::eval_c12);
+        }
+        "C13" => {
+            run.rule = format!("{}; x all 2^n masks (n <= 4); relations route<->route", E1_RULE);
+            run_e1(&mut run, &[1, 2, 3], &[false, true], 99, c07_12_13::eval_c13);
+        }
         _ => {
             eprintln!("unknown property {}", prop);
             return 2;
@@ -54,6 +68,9 @@ pub fn replay(path: &str) -> i32 {
         "c02" => c01_04::eval_c02(&st),
         "c03" => c01_04::eval_c03(&st),
         "c04" => c01_04::eval_c04(&st),
+        "c07" => c07_12_13::eval_c07_with(&st, 5),
+        "c12" => c07_12_13::eval_c12(&st),
+        "c13" => c07_12_13::eval_c13(&st),
         _ => {
             eprintln!("unknown check '{}' in {}", check, path);
             return 2;
